@@ -1163,7 +1163,8 @@ class CPhase(BaseGate):
 
         self.sites = sites_list
         self.tensor: NDArray[np.complex128] = np.reshape(self.matrix, (2, 2, 2, 2))
-        self.generator = [(self.theta / 2) * np.array([[1, 0], [0, -1]]), np.array([[1, 0], [0, 0]])]
+        # exp(-i * G) = diag(1, 1, 1, e^{i theta})  with  G = -theta * |1><1| ⊗ |1><1|
+        self.generator = [-self.theta * np.array([[0, 0], [0, 1]]), np.array([[0, 0], [0, 1]])]
         self.mpo_tensors = extend_gate(self.tensor, self.sites)
 
 
